@@ -324,7 +324,8 @@ def part_caller(n, seed):
             v += 0.2 * np.random.randn()
             return (v, 0.2) if mode == "he" else v
 
-        b = BADS(f, arrs["x0"], arrs["lb"], arrs["ub"], arrs["plb"], arrs["pub"], options=opts)
+        omit_pl = rs.rand() < 0.35  # plausible bounds omitted: BADS defaults them to (copies of) the caller's hard bounds
+        b = BADS(f, arrs["x0"], arrs["lb"], arrs["ub"], None if omit_pl else arrs["plb"], None if omit_pl else arrs["pub"], options=opts)
 
         def chk(when):
             cnt["C20.caller_object_checks"] = cnt.get("C20.caller_object_checks", 0) + 1
